@@ -489,3 +489,72 @@ Example C20_params_info_validators_nonvacuous :
   snd (relay_validators ex_o (Some 2) (Some 2) (Some 2)) = Some (2, [[3%N]], 3) /\
   snd (relay_validators ex_o (Some 2) (Some 3) (Some 2)) = None.
 Proof. vm_compute. repeat split; reflexivity. Qed.
+
+(* ---------------------------------------------------------------- ConsensusParams, with and without a height (repair F86) *)
+From TM Require Import C20.LatestModel C20.LatestProofs.
+
+(* The conversation is modelled (LatestModel.v): the server is a function from the request to its
+   answer, and the honest server labels like rpc/core does - a request without a height is
+   answered for store height + 1, the height of a block that does not exist yet.
+   Soundness: what is returned carries parameters that hash to the ConsensusHash of a light block
+   the oracle returned - with an explicit height the verified block of the answer's height (as
+   C20_params_sound_complete), without one the light client's LATEST block (C20_latest_sound says
+   where that comes from), whose height the answer is labelled with. *)
+Theorem C20_params_latest_sound :
+  forall (H : bytes -> bytes) (o : oracle) (srv : params_server) (req : option Z) (r : rparams),
+    snd (relay_params_req H o srv req) = Some r -> Consistent_params_req H o req r.
+Proof. exact params_req_sound. Qed.
+Print Assumptions C20_params_latest_sound.
+
+(* Completeness without a height, against the REAL server's labelling: if the light client has a
+   latest block l of a height the node still serves (at most store height + 1) and l's
+   ConsensusHash is the hash of the parameters in force at that height, the parameters of that
+   height are returned (the unrepaired client refused every such answer: C20_params_latest_refuted) *)
+Theorem C20_params_latest_complete :
+  forall (H : bytes -> bytes) (o : oracle) (tip : Z) (params : Z -> Z * Z) (l : lblock),
+    snd (upd o None) = Some l ->
+    0 < h_height (lb_header l) <= tip + 1 ->
+    params_hash H (fst (params (h_height (lb_header l)))) (snd (params (h_height (lb_header l))))
+      = h_consensus_hash (lb_header l) ->
+    snd (relay_params_req H o (honest_params_server tip params) None)
+      = Some (honest_answer params (h_height (lb_header l))).
+Proof. exact params_req_complete_latest. Qed.
+Print Assumptions C20_params_latest_complete.
+
+(* ... and with an explicit height, unchanged *)
+Theorem C20_params_at_complete :
+  forall (H : bytes -> bytes) (o : oracle) (tip : Z) (params : Z -> Z * Z) (h : Z) (l : lblock),
+    o_verify o h = Some l -> 0 < h <= tip + 1 ->
+    params_hash H (fst (params h)) (snd (params h)) = h_consensus_hash (lb_header l) ->
+    snd (relay_params_req H o (honest_params_server tip params) (Some h)) = Some (honest_answer params h).
+Proof. exact params_req_complete_at. Qed.
+Print Assumptions C20_params_at_complete.
+
+(* non-vacuity: store height 3, the light client's latest block is ex_l3; "latest" is returned as
+   the parameters of height 3 after one request for height 3; a server that answers that request
+   with other parameters, or with the genuine parameters labelled 2, is refused; an explicit
+   height works as before *)
+Example C20_params_latest_nonvacuous :
+  let params := fun _ : Z => (22020096, -1) in
+  let srv := honest_params_server 3 params in
+  relay_params_req sha256 ex_o srv None = ([CallUpdate], Some (Some 3), Some (honest_answer params 3)) /\
+  snd (relay_params_req sha256 ex_o (fun _ => Some {| p_valid := true; p_height := 3; p_max_bytes := 1; p_max_gas := -1 |}) None) = None /\
+  snd (relay_params_req sha256 ex_o (fun _ => Some (honest_answer params 2)) None) = None /\
+  snd (relay_params_req sha256 ex_o srv (Some 2)) = Some (honest_answer params 2) /\
+  srv None = Some (honest_answer params 4).
+Proof. vm_compute. repeat split; reflexivity. Qed.
+
+(* F86, the regression witness: the unrepaired method passes "no height" on, the honest node
+   answers for store height + 1 = 4, and the light client has no header 4 to offer - refused,
+   whatever the chain, while the control with an explicit height is relayed *)
+Example C20_params_latest_refuted :
+  let params := fun _ : Z => (22020096, -1) in
+  let srv := honest_params_server 3 params in
+  relay_params_unrepaired sha256 ex_o srv None = ([CallVerify 4], Some None, None) /\
+  snd (relay_params_unrepaired sha256 ex_o srv (Some 3)) = Some (honest_answer params 3) /\
+  (forall o tip p, 0 <= tip -> o_verify o (tip + 1) = None ->
+     snd (relay_params_unrepaired sha256 o (honest_params_server tip p) None) = None).
+Proof.
+  split; [vm_compute; reflexivity |]. split; [vm_compute; reflexivity |].
+  intros; apply unrepaired_refuses_latest; assumption.
+Qed.
